@@ -114,6 +114,9 @@ func (g *G) Enabler(atomics []zap.AtomicLevel) *Enab {
 type Leaf struct {
 	ID   int
 	Kind string // observer, json, console
+	// Fails: the destination records the entry and then reports a write error (a full disk, a closed
+	// file): what the other destinations receive must not depend on that
+	Fails bool
 	Logs *observer.ObservedLogs
 	Sink *rec.Sink
 }
@@ -182,6 +185,9 @@ type Env struct {
 func (c *Comp) String() string {
 	switch c.Kind {
 	case "leaf":
+		if c.Leaf.Fails {
+			return fmt.Sprintf("%s#%d[%s]{reports a write error}", c.Leaf.Kind, c.Leaf.ID, c.Enab)
+		}
 		return fmt.Sprintf("%s#%d[%s]", c.Leaf.Kind, c.Leaf.ID, c.Enab)
 	case "nop":
 		return "nop"
@@ -221,6 +227,7 @@ func (g *G) Composition(env *Env, depth int) *Comp {
 		default:
 			l.Kind = "observer"
 		}
+		l.Fails = r.P(1, 8)
 		env.Leaves = append(env.Leaves, l)
 		return &Comp{Kind: "leaf", Leaf: l, Enab: g.Enabler(env.Atomics)}
 	}
@@ -317,16 +324,21 @@ func (c *Comp) build(env *Env) zapcore.Core {
 	case "nop":
 		return zapcore.NewNopCore()
 	case "leaf":
+		var leaf zapcore.Core
 		switch c.Leaf.Kind {
 		case "observer":
 			core, logs := observer.New(c.Enab.Zap())
 			c.Leaf.Logs = logs
-			return core
+			leaf = core
 		case "json":
-			return zapcore.NewCore(zapcore.NewJSONEncoder(leafEncCfg), c.Leaf.Sink, c.Enab.Zap())
+			leaf = zapcore.NewCore(zapcore.NewJSONEncoder(leafEncCfg), c.Leaf.Sink, c.Enab.Zap())
 		default:
-			return zapcore.NewCore(zapcore.NewConsoleEncoder(leafEncCfg), c.Leaf.Sink, c.Enab.Zap())
+			leaf = zapcore.NewCore(zapcore.NewConsoleEncoder(leafEncCfg), c.Leaf.Sink, c.Enab.Zap())
 		}
+		if c.Leaf.Fails {
+			return errAfter{leaf}
+		}
+		return leaf
 	case "tee":
 		var cs []zapcore.Core
 		for _, k := range c.Kids {
@@ -386,6 +398,23 @@ func (c *Comp) build(env *Env) zapcore.Core {
 		return zapcore.NewSamplerWithOptions(c.Kids[0].Build(env), time.Hour, 1, 0)
 	}
 	panic("unknown comp " + c.Kind)
+}
+
+// errAfter lets the wrapped destination do its work and then reports a write error.
+type errAfter struct{ zapcore.Core }
+
+var errLeaf = fmt.Errorf("generated destination reports a write error")
+
+func (e errAfter) With(fs []zapcore.Field) zapcore.Core { return errAfter{e.Core.With(fs)} }
+func (e errAfter) Check(ent zapcore.Entry, ce *zapcore.CheckedEntry) *zapcore.CheckedEntry {
+	if e.Enabled(ent.Level) {
+		return ce.AddCore(ent, e)
+	}
+	return ce
+}
+func (e errAfter) Write(ent zapcore.Entry, fs []zapcore.Field) error {
+	_ = e.Core.Write(ent, fs)
+	return errLeaf
 }
 
 func sameCore(a, b zapcore.Core) (same bool) {
